@@ -12,7 +12,7 @@ Section Diff.
   Variable roots : list hash.
 
   Definition okA (h : hash) (e : entry) : Prop :=
-    oget ea h = Some e /\ ohas (l_entries lb) h = false /\ e_logid e = l_id lb.
+    oget ea h = Some e /\ ohas (l_entries lb) h = false /\ e_logid e = l_id lb /\ e_hash e = h.
 
   Inductive greach : hash -> Prop :=
   | gr_root h : In h roots -> greach h
@@ -65,7 +65,7 @@ Section Diff.
       | S f =>
         match oget ea h with
         | Some eA =>
-          if negb (ohas (l_entries lb) h) && N.eqb (e_logid eA) (l_id lb) then
+          if negb (ohas (l_entries lb) h) && N.eqb (e_logid eA) (l_id lb) && N.eqb (e_hash eA) h then
             let '(stack'', seen'') := fold_left push_step (e_next eA) (stack', h :: seen) in
             diff_loop f ea lb stack'' seen'' (oset res h eA)
           else diff_loop f ea lb stack' seen res
@@ -91,7 +91,8 @@ Section Diff.
              right. right. intros e [_ [O _]]. congruence.
           -- intros r Hr. destruct (F r Hr) as [?|[[<-|?]|?]]; auto.
              right. right. intros e [_ [O _]]. congruence.
-        * destruct (N.eqb_spec (e_logid eA) (l_id lb)) as [L|L].
+        * destruct (N.eqb_spec (e_logid eA) (l_id lb)) as [L|L];
+             [destruct (N.eqb_spec (e_hash eA) h) as [HH|HH]|]; cbn [andb].
           -- (* taken *)
              pose proof (push_fold_spec (e_next eA) stack' (h :: seen)) as PS.
              destruct (fold_left push_step (e_next eA) (stack', h :: seen)) as [st' sn'].
@@ -116,13 +117,20 @@ Section Diff.
                 ** destruct (E k v n Hin Hn) as [?|?]; auto. right. apply PB. left. now right.
              ++ intros r Hr. rewrite In_okeys_oset. destruct (F r Hr) as [?|[[<-|?]|?]]; auto.
                 right. left. apply PA. auto.
+          -- (* filed under a key that is not its hash: dropped *)
+             apply IH. destruct DI as [A B C D E F]. split; auto.
+             ++ intros x Hx. apply C. now right.
+             ++ intros x Hx. destruct (D x Hx) as [?|[[<-|?]|?]]; auto.
+                right. right. intros e [G' [_ [_ H']]]. congruence.
+             ++ intros r Hr. destruct (F r Hr) as [?|[[<-|?]|?]]; auto.
+                right. right. intros e [G' [_ [_ H']]]. congruence.
           -- (* foreign log id: dropped *)
              apply IH. destruct DI as [A B C D E F]. split; auto.
              ++ intros x Hx. apply C. now right.
              ++ intros x Hx. destruct (D x Hx) as [?|[[<-|?]|?]]; auto.
-                right. right. intros e [G' [_ L']]. congruence.
+                right. right. intros e [G' [_ [L' _]]]. congruence.
              ++ intros r Hr. destruct (F r Hr) as [?|[[<-|?]|?]]; auto.
-                right. right. intros e [G' [_ L']]. congruence.
+                right. right. intros e [G' [_ [L' _]]]. congruence.
       + (* not in A: dropped *)
         apply IH. destruct DI as [A B C D E F]. split; auto.
         * intros x Hx. apply C. now right.
